@@ -136,7 +136,7 @@ func sizeClassOf(n int) string {
 
 func runC01(c *Ctx) {
 	r := c.R
-	r.SetRule("body size ladder (0,1,2,15..17,511..513,4095..4097,32767..32769,65535..65537, 1 MiB-1/1 MiB/1 MiB+1, thorough also 3 MiB+7, plus random sizes) x byte pattern (zeros, 0xFF, all 256 values, CR/LF/NUL-heavy, random) x key class (plain, nested, needs-escaping, UTF-8, long, dotted) x metadata class x upload path (PUT, browser-form POST, copy, Go PutObject) on all six backends with integrity checking on and off; every upload is read back by GET, HEAD, List V1/V2 and the Go API, and every third one again after ten bystander requests (refused bucket delete/create, bucket sub-resource reads, reads and deletes of a never-written sibling key); overwrites go longer->shorter, and every fourth PUT / Go PutObject is repeated with the same bytes and other metadata; distinct = (backend, integrity, upload path, size, pattern, key class, metadata class) with a body different from the key's previous body")
+	r.SetRule("body size ladder (0,1,2,15..17,511..513,4095..4097,32767..32769,65535..65537, 1 MiB-1/1 MiB/1 MiB+1, thorough also 3 MiB+7, plus random sizes) x byte pattern (zeros, 0xFF, all 256 values, CR/LF/NUL-heavy, random) x key class (plain, nested, needs-escaping, UTF-8, long, dotted) x metadata class x upload path (PUT, browser-form POST, copy, Go PutObject) on all seven backend configurations with integrity checking on and off; every upload is read back by GET, HEAD, List V1/V2 and the Go API, and every third one again after ten bystander requests (refused bucket delete/create, bucket sub-resource reads, reads and deletes of a never-written sibling key); overwrites go longer->shorter, and every fourth PUT / Go PutObject is repeated with the same bytes and other metadata; distinct = (backend, integrity, upload path, size, pattern, key class, metadata class) with a body different from the key's previous body")
 	sizes := append([]int(nil), gen.SizeLadder...)
 	sizes = append(sizes, 1<<20-1, 1<<20, 1<<20+1)
 	if r.Thorough() {
